@@ -1,6 +1,9 @@
 //! parse a given XML document into a tree of Element structs
 
+#[cfg(not(feature = "xsg_verif"))]
 use std::collections::HashMap;
+#[cfg(feature = "xsg_verif")]
+use crate::verif::HashMap;
 use std::io::BufRead;
 
 use quick_xml::events::{BytesStart, Event};
